@@ -5,3 +5,4 @@ import Props.C18
 import Props.C19
 import Props.C07
 import Props.C06
+import Props.C08
